@@ -66,6 +66,9 @@ func suiteAlias(r *Rng, n int, thorough bool, o *Out) {
 		for k, a := range typ.Attrs {
 			if a.Type == jsonapi.AttrTypeBytes && r.chance(2, 3) {
 				b := []byte{3, 1, 2}
+				if a.Nullable && r.chance(1, 3) {
+					b = []byte{} // a non-nil pointer to an empty slice is a value too
+				}
 				if a.Nullable {
 					vals[k] = &b
 				} else {
@@ -84,6 +87,32 @@ func suiteAlias(r *Rng, n int, thorough bool, o *Out) {
 		for h := 2 + r.IntN(8); h > 0; h-- {
 			i := r.IntN(len(rs))
 			target := rs[i]
+			if r.chance(1, 3) {
+				// a nullable bytes attribute read from the target is REPLACED through the
+				// pointer Get hands out (also when it points to an empty slice), the other
+				// resources are read, and the old value is put back: nothing read from another
+				// resource may move (no state changes, so the model is not told)
+				for _, k := range target.keys {
+					p, isPtr := target.res.Get(k).(*[]byte)
+					if !isPtr || p == nil {
+						continue
+					}
+					others := make([]string, len(rs))
+					for j := range rs {
+						others[j] = aliasObs(rs[j : j+1])
+					}
+					old := *p
+					*p = []byte("written through the pointer")
+					for j := range rs {
+						if j != i && aliasObs(rs[j:j+1]) != others[j] {
+							o.emit(lst("alias", "pointer-write", itoa(i), hx(k)), "changed", fmt.Sprintf("FAIL:replacing the bytes of resource %d through the pointer read from it changed what is read from resource %d", i, j))
+						}
+					}
+					*p = old
+					o.stat("op.pointer-write-undone")
+					break
+				}
+			}
 			before := make([]string, len(rs))
 			for j := range rs {
 				before[j] = aliasObs(rs[j : j+1])
